@@ -52,8 +52,8 @@ MUTS = {
     rep(w+"/routine/routine.go", "\tr.err = nil\n\tr.success, r.exited = false, false\n\tr.exitedCh = exitedCh\n", "\tr.exitedCh = exitedCh\n\tr.success, r.exited = false, false\n\tr.err = nil\n")),
  "H3_rename_field": lambda w: sh("sed -i 's/jobQueueSize/pendingJobs/g' %s/conc/queue.go && sed -i 's/\\bnreaders\\b/readerCount/g' %s/csync/rwmutex.go" % (w, w)),
  "H4_explicit_unlock_instead_of_defer": lambda w: rep(w+"/keyed/keyed.go",
-    "func (k *Keyed[K, V]) RemoveKey(key K) bool {\n\tk.mtx.Lock()\n\tdefer k.mtx.Unlock()\n\n\tv, existed := k.routines[key]\n\tif existed {\n\t\tv.remove()\n\t}\n\treturn existed\n",
-    "func (k *Keyed[K, V]) RemoveKey(key K) bool {\n\tk.mtx.Lock()\n\tv, existed := k.routines[key]\n\tif existed {\n\t\tv.remove()\n\t}\n\tk.mtx.Unlock()\n\treturn existed\n"),
+    "\tk.mtx.Lock()\n\tdefer k.mtx.Unlock()\n\n\tv, existed := k.routines[key]\n\tif existed {\n\t\tv.remove()\n\t}\n\treturn existed\n",
+    "\tk.mtx.Lock()\n\tv, existed := k.routines[key]\n\tif existed {\n\t\tv.remove()\n\t}\n\tk.mtx.Unlock()\n\treturn existed\n"),
  "H5_holdlock_body_to_named_closure": lambda w: rep(w+"/ccontainer/ccontainer.go",
     "\tvar val T\n\tc.bcast.HoldLock(func(broadcast func(), getWaitCh func() <-chan struct{}) {\n\t\tval = c.val\n\t})\n\treturn val\n",
     "\tvar val T\n\tread := func() { val = c.val }\n\tc.bcast.HoldLock(func(broadcast func(), getWaitCh func() <-chan struct{}) {\n\t\tread()\n\t})\n\treturn val\n"),
